@@ -131,7 +131,7 @@ def rt_pass(prop, tier, seed):
         outs = list(ex.map(work, range(nw)))
     shutil.rmtree(root, ignore_errors=True)
     names = ["rt_cases", "rt_violations", "rt_waits", "rt_polls", "rt_stops", "rt_lower_bounds_checked", "rt_slow",
-             "rt_timeouts", "rt_statuses", "rt_deadline_events", "rt_badtargets"]
+             "rt_timeouts", "rt_statuses", "rt_deadline_events", "rt_badtargets", "rt_children_polled_together"]
     obs = {n: 0 for n in names}
     viols = []
     for rc, out, err in outs:
